@@ -317,6 +317,13 @@ func (cs *clientStream) SendMsg(m interface{}) error {
 	}
 
 	cs.wErr = writeProtoMessage(cs.w, cs.codec, m, false)
+	if cs.wErr != nil {
+		if done, _ := cs.readErrorIfDone(); done {
+			// the call completed while we were writing (the request pipe is closed
+			// on completion): same as a send on a finished stream
+			cs.wErr = io.EOF
+		}
+	}
 	return cs.wErr
 }
 
